@@ -64,6 +64,7 @@ type Seq struct {
 	deadSess []*Sess // ended sessions: must not receive anything further
 	// options
 	IgnoreMeta bool // do not compare meta events (properties that do not subscribe to wamp.*)
+	CheckSenderPayload bool // C12: a recipient's modifications must not reach the sender's objects
 }
 
 func NewSeq(c *Ctx, w *World) *Seq {
